@@ -61,6 +61,12 @@ def child_env(extra: dict | None = None) -> dict:
 
 # --------------------------------------------------------------------------- TLA+ values
 
+class HDict(dict):
+    """dict that can be a member of a (frozen)set: TLA+ functions/records inside sets."""
+    def __hash__(self):
+        return hash(frozenset(self.items()))
+
+
 class _P:
     def __init__(self, s: str):
         self.s = s
@@ -114,7 +120,7 @@ class _P:
                 self.expect(',')
         if c == '[':
             self.i += 1
-            out = {}
+            out = HDict()
             while True:
                 self.ws()
                 m = re.compile(r'[A-Za-z_][A-Za-z0-9_]*').match(s, self.i)
@@ -129,7 +135,7 @@ class _P:
                 self.expect(',')
         if c == '(':
             self.i += 1
-            out = {}
+            out = HDict()
             while True:
                 k = self.value()
                 self.expect(':>')
